@@ -3,6 +3,7 @@ package importer
 import (
 	"github.com/anz-bank/sysl/pkg/zzverif/nd"
 	"github.com/getkin/kin-openapi/openapi3"
+	"github.com/sirupsen/logrus"
 )
 
 // a schema's properties become fields; a field is optional iff its name is not in `required`
@@ -49,5 +50,47 @@ func Harness_C11_RequiredList() {
 			}
 		}
 		nd.Assert("schema:field-name-is-a-property", known)
+	}
+}
+
+// the primitive kind of a foreign (type, format) pair: for string / integer / number with
+// ANY format string the result is a Sysl primitive of that family — an unknown format falls
+// back to the plain kind, it never leaks the foreign type name into the output
+//
+//verif:shard-quick 8 4
+//verif:shard-thorough 16 5
+func Harness_C11_TypeAndFormat() {
+	L := 4
+	if nd.Thorough() {
+		L = 6
+	}
+	kind := nd.IntRange("type", 0, 2)
+	typ := []string{"string", "integer", "number"}[kind]
+	if nd.Bool("type-in-capitals") {
+		typ = []string{"String", "INTEGER", "Number"}[kind]
+	}
+	format := nd.String("format", L)
+	for i := 0; i < len(format); i++ {
+		nd.Assume(format[i] >= 0x20 && format[i] < 0x7f)
+	}
+	got := mapOpenAPITypeAndFormatToType(typ, format, logrus.New())
+	var family []string
+	switch kind {
+	case 0:
+		family = []string{"string", "date", "datetime", "bytes", "uuid"}
+	case 1:
+		family = []string{"int", "int32", "int64"}
+	default:
+		family = []string{"float"}
+	}
+	ok := false
+	for _, f := range family {
+		if got == f {
+			ok = true
+		}
+	}
+	nd.Assert("format:any-format-gives-a-primitive-of-the-family", ok)
+	if len(format) == 0 {
+		nd.Assert("format:no-format-gives-the-plain-kind", got == family[0])
 	}
 }
